@@ -16,7 +16,10 @@ CONSTANTS Dev,
 Atoms == {"EMPTY", "BLANK", "WORD", "NEG", "ZERO", "ONE", "SEVEN", "HUGE", "FRAC",
           "PLUS", "STAR", "LPAR", "EXPEMPTY", "TALK", "DOTS", "EPOCH", "BADDATE",
           "LT", "KV", "HASH", "UP", "PCT", "E",
-          "SUP", "ARDIG"}      \* "²" (isdigit but not a decimal numeral) and an Arabic-Indic digit
+          "SUP", "ARDIG",      \* "²" (isdigit but not a decimal numeral) and an Arabic-Indic digit
+          \* date texts: a 14-digit timestamp that is no date, one in year 1, "@" + a float far out of
+          \* range; a digit string longer than any integer conversion accepts; 200 nested parentheses
+          "TS14BAD", "TS14YR1", "ATEXP", "DIGITS", "DEEP"}
 ExprValue == {"NEG", "ZERO", "ONE", "SEVEN", "HUGE", "FRAC", "E"}   \* texts that are a well-formed #expr
 \* page titles the call is expanded on
 Titles == {"plain", "talk", "nstalk", "user"}
@@ -58,6 +61,10 @@ CallD(name, argv, title, D) ==
       AsIs(dev, what, via) == IF dev \in D THEN Escapes(what) ELSE InBand(via)
   IN
   CASE c = "unimplemented" -> InBand("unimplemented")      \* ctx.error + the call text
+    \* listed finding: int() of a decimal string longer than the interpreter's conversion limit
+    \* (4300 digits) raises ValueError in the functions that read a count / index / id / date
+    [] (\E i \in 1..Len(argv) : argv[i] = "DIGITS") /\ "IntegerStringConversionLimit" \in D /\ c # "expr" ->
+         Escapes("ValueError")
     [] c = "talkpagename" ->
          \* indexes NAMESPACE_DATA[prefix + " talk"]: no "Talk talk" namespace
          IF title \in TalkTitles THEN AsIs("TalkNamespaceLookup", "KeyError", "value") ELSE InBand("value")
